@@ -67,7 +67,7 @@ def h_topology_dataframe(I, fi):
         dsl.cover(I, "topology-frame.empty")
     P.check("topology-frame.from-all-records", made == [recs], "the table is built from exactly these records", kind="post")
     srt = call(E("frame"), "sort_values", by="log_p_joint_max", ascending=False, ignore_index=True)
-    P.check("topology-frame.ranked-by-score", isinstance(out, E) and _same(out.t, srt.t), "rows are sorted by log_p_joint_max, descending, and re-indexed 0..n-1 (the rank)", kind="post")
+    P.check("topology-frame.ranked-by-score", isinstance(out, E) and _same(out.t, srt.t), "rows are sorted by log_p_joint_max, descending, and re-indexed 0..n-1 (the rank)", kind="term")
 
 
 def h_topology_ids(I, fi):
@@ -97,7 +97,7 @@ def h_topology_ids(I, fi):
     val = inserted[0][3] if inserted else None
     want = E("binop", "Add", "t_", call(E("index", out), "astype", "str")) if out is not None else None
     okv = isinstance(val, E) and val.t[0] == "binop" and val.t[1] == "Add" and val.t[2] == "t_" and isinstance(val.t[3], E) and val.t[3].t[0] in ("astype", "call") and _flat(val.t[3].t[1]) == _flat(E("index", out))
-    P.check("topology-frame.ids-are-the-ranks", ok and okv, "topology_id is the first column and equals 't_' + the row's rank in the sorted table", kind="post")
+    P.check("topology-frame.ids-are-the-ranks", ok and okv, "topology_id is the first column and equals 't_' + the row's rank in the sorted table", kind="term")
 
 
 def h_map_frequency(I, fi):
@@ -157,7 +157,7 @@ def h_map_frequency(I, fi):
     ch = E("iloc", E("getitem", by_count, "chain_num"), 0)
     tab = [e for e in log if e[0] == "table"]
     ok = len(tab) == 1 and isinstance(tab[0][1], tuple) and tab[0][1][0] == "tree-from" and tab[0][1][1] == ("field", "tree", _flat(ch), _flat(it))
-    P.check("map.frequency.first-row-by-count", ok, "frequency mode: the tree is restored from the entry (chain, iter) named by the first row of the topology table sorted by count, descending", kind="post")
+    P.check("map.frequency.first-row-by-count", ok, "frequency mode: the tree is restored from the entry (chain, iter) named by the first row of the topology table sorted by count, descending", kind="term")
     P.check("map.frequency.table-from-the-whole-trace", ("topology-dict", results) in log and ("frame", ("topology-records",)) in log, "the topology table is built from the whole trace", kind="post")
     w = [e for e in log if e[0] == "write"]
     P.check("map.frequency.outputs", len(w) == 1 and w[0][3] == ("table-of", tab[0][1]) and w[0][4] == tab[0][1] if tab else False, "table and tree written are those of the selected tree", kind="post")
@@ -255,10 +255,10 @@ def h_clone_table(I, fi):
     tree = ("tree",)
     out = I.call_function(fi, [("data",), samples, tree], {"clusters": ("clusters",)}, force_inline=True)
     P.check("clone-table.labels-and-map-of-the-same-tree", ("labels", ("data",), tree, ("clusters",)) in log and ("map", tree) in log, "labels and CCFs are computed for the same tree (labels with the cluster table given)", kind="post")
-    P.check("clone-table.sample-positions", ("index-dict", "k", "v", "(v, k)") in log, "a sample's column is its position in the sample list", kind="post")
+    P.check("clone-table.sample-positions", ("index-dict", "k", "v", "(v, k)") in log, "a sample's column is its position in the sample list", kind="term")
     ls = [e for e in log if e[0] == "labels-set"]
     okx = len(ls) == 1 and ls[0][1] == "sample_id" and isinstance(ls[0][2], tuple) and ls[0][2][0] == "repeat" and len(ls[0][2][1]) == 1 and ls[0][2][1][0] is samples
-    P.check("clone-table.every-mutation-times-every-sample", okx and ("groupby", ["clone_id", "sample_id"]) in log, "every label row is paired with the whole sample list, exploded, and grouped by (clone, sample)", kind="post")
+    P.check("clone-table.every-mutation-times-every-sample", okx and ("groupby", ["clone_id", "sample_id"]) in log, "every label row is paired with the whole sample list, exploded, and grouped by (clone, sample)", kind="term")
     sets = [e for e in log if e[0] == "group-set"]
     clone = alg.sym("clone_id", "Int")
     pos = ("position-of", ("sample", "generic"))
@@ -407,7 +407,7 @@ def h_archive(I, fi):
     sel = [e for e in log if e[0] == "select"]
     fields = _flat(sel[0][1]) if sel else ()
     P.check("archive.row-by-the-five-fields", len(sel) == 1 and all(repr(("value-of", k)) in repr(fields) for k in ("topology", "count", "log_p_joint_max", "iter", "chain_num")),
-            "the table row of a topology is selected by topology string, count, score, iteration and chain together", kind="post")
+            "the table row of a topology is selected by topology string, count, score, iteration and chain together", kind="term")
     adds = [e for e in log if e[0] == "add"]
     included = not P.feasible(P.z(rank) >= P.z(top))
     excluded = not P.feasible(P.z(rank) < P.z(top))
